@@ -3258,13 +3258,27 @@ def spec_call(ip, e, fr):
         ax = ip.reg.axioms.get(nm)
         if ax is None:
             raise EngineError(f'unknown axiom/lemma {nm}')
-        vals = [ev(a) for a in e.args[1:]]
-        if len(vals) != len(ax.params):
+        if len(e.args) - 1 != len(ax.params):
             raise EngineError(f'use({nm}): expected {len(ax.params)} arguments')
+        # an argument written ANY stays universally quantified in the instance (needed when the goal's own bound variable
+        # - e.g. "for every row k" - must meet the lemma)
+        vals, qvars = [], []
+        for a, (pn, pk) in zip(e.args[1:], ax.params.items()):
+            if isinstance(a, ast.Name) and a.id == 'ANY':
+                qv = z3.Const(ip.fresh_name('any_' + pn), pk.sort())
+                qvars.append(qv)
+                vals.append(pk.wrap(qv, ip))
+            else:
+                vals.append(ev(a))
         env = dict(zip(ax.params.keys(), vals))
         hyps = [ip.spec_bool(h, env) for h in ax.hyps]
         body = ip.spec_bool(ax.body, env)
         ip.V.used_axioms.add(nm)
+        if qvars:
+            if ax.kind == 'assumed':
+                ip.assumed.add(f'assumed lemma {nm}')
+            ip.assume(z3.ForAll(qvars, z3.Implies(z3.And(*hyps), body) if hyps else body))
+            return VConst(None)
         if ax.kind == 'assumed':
             ip.assumed.add(f'assumed lemma {nm}')
         if ax.kind == 'induction':
